@@ -184,6 +184,11 @@ def grad_and_aux(fun, x):
     """Builds a function that returns the gradient of the first output and the
     (unmodified) second output of a function that returns two outputs."""
     vjp, (ans, aux) = _make_vjp(lambda x: atuple(fun(x)), x)
+    if not vspace(ans).size == 1:
+        raise TypeError(
+            "grad_and_aux only applies to functions whose first output is a real scalar. "
+            "Try jacobian, elementwise_grad or holomorphic_grad."
+        )
     return vjp((vspace(ans).ones(), vspace(aux).zeros())), aux
 
 
